@@ -104,6 +104,7 @@ def _cases(draw, tier):
     case["ctor"] = draw(st.sampled_from(["api", "api", "cli"]))
     case["linkflag"] = case["method"] == "copy" and draw(st.booleans())
     case["verbose"] = draw(st.booleans())  # progress reports on stdout: must not change what is mirrored
+    case["aged"] = draw(st.integers(0, 2)) == 0  # the source files carry old modification times (a backlog from yesterday)
     return case
 
 
@@ -618,6 +619,8 @@ def _run(case, res, base, stage, src, dest, ev, drf, list_drf, mirror):
                         dispatch(ev.FileCreatedEvent(tmp))
                         dispatch(ev.FileModifiedEvent(tmp))
                     active[0] = False
+                    if case.get("aged"):
+                        os.utime(tmp, (1600000000, 1600000000))
                     os.rename(tmp, fin)
                     world.note(rel)
                     world.rf_final[rel] = sha(fin)
